@@ -12,6 +12,6 @@ CONSTANTS
   KWrites <- MCKWritesT
   MaxCmds = 3
   Contract = TRUE
-  Deviations = {"flush_rsp_no_complete"}
+  Deviations = {"clean_when_flush_queued"}
 INVARIANTS TypeOK CompleteOnceAfterAll RoundTrip OutsideUntouched NoHang
 CHECK_DEADLOCK FALSE
